@@ -5,7 +5,7 @@ CONSTANTS
   Check = {"C04", "C05", "C06"}
   Own = "own"
   Router = "router"
-  Clients = {"m1", "m2", "m3", "m4", "m5", "m6", "m7", "m8", "m9", "m10", "m11", "m12", "m13", "m14", "m15", "m16", "m17", "m18", "m19", "m20", "m101", "m102", "m103"}
+  Clients = {"m1", "m2", "m3", "m4", "m5", "m6", "m7", "m8", "m9", "m10", "m11", "m12", "m13", "m14", "m15", "m16", "m17", "m18", "m19", "m20", "m101", "m102", "m103", "m201", "m202"}
   HostIP = "hostip"
   RouterIP = "routerip"
   LanIPs = {"a1", "a2", "a3", "a4", "a5", "a6", "a7", "a8", "a9", "a10", "a11", "a12", "a13", "a14", "a15", "a16", "a17", "a18", "a19", "a20"}
